@@ -239,7 +239,60 @@ class NT:
                                 for z in walk_deep(ys[2], self.prov):
                                     if z[0] == "call" and (z[1] or "").endswith("::len") and z[2]:
                                         has_last = True
-        return has_zero and has_last
+        if has_zero and has_last:
+            return True
+        # the same test through an iterator adaptor: the FIRST NUL's position (iter().position(|b| *b == 0)) is the last index:
+        # `pos + 1 == len` or `pos == len - 1` on a dominating edge, on the Some(pos) arm
+        for sb in self.cfg.live_blocks():
+            if self.cfg.term(sb)["k"] != "switch":
+                continue
+            for e in self.cfg.succ[sb]:
+                if not self.cfg.edge_dominates(e, bb):
+                    continue
+                for f in self.ctx.edge_facts(e):
+                    if f[0] == "cmp" and f[1] == "Eq":
+                        for x, y in ((f[2], f[3]), (f[3], f[2])):
+                            pos = _first_nul_position(x, self.prov, self.prog)
+                            if pos is None:
+                                continue
+                            # ... over the very bytes that reach the sink
+                            its = [z for z in walk_deep(pos[0], self.prov, limit=80) if z[0] == "call" and (z[1] or "").endswith("::iter") and z[2]]
+                            if not any(self.same_source(z[2][0], src) or canon(strip_refs(z[2][0])).replace("*", "") in cs.replace("*", "") or cs.replace("*", "") in canon(strip_refs(z[2][0])).replace("*", "") for z in its):
+                                continue
+                            ys = strip_casts(y)
+                            want_sub = 1 - pos[1]       # pos + 1 == len  <=> pos == len - 1
+                            is_len = lambda z: any(w[0] == "call" and (w[1] or "").endswith("::len") for w in walk_deep(z, self.prov, limit=40))  # noqa: E731
+                            if want_sub == 0 and is_len(ys) and not (isinstance(ys, tuple) and ys[0] == "bin"):
+                                return True
+                            if want_sub == 1 and isinstance(ys, tuple) and ys[0] == "bin" and ys[1] == "Sub" and const_value(ys[3]) == 1 and is_len(ys[2]):
+                                return True
+        return False
+
+
+def _first_nul_position(e, prov, prog):
+    """e is `(iter(..).position(|b| *b == 0) as Some).0` (+ small constant): returns (source expression, added constant) or None"""
+    e = strip_casts(e)
+    add = 0
+    if isinstance(e, tuple) and e[0] == "bin" and e[1] == "Add" and const_value(e[3]) is not None:
+        add = const_value(e[3])
+        e = strip_casts(e[2])
+    n = 0
+    while isinstance(e, tuple) and e and e[0] in ("field", "downcast", "deref", "ref", "addr") and n < 8:
+        e = strip_casts(e[2] if e[0] in ("ref", "addr") else e[1])
+        n += 1
+    if not (isinstance(e, tuple) and e[0] == "call" and (e[1] or "").endswith("Iterator::position") and len(e[2]) == 2):
+        return None
+    clo = [z for z in walk_deep(e[2][1], prov, limit=40) if z[0] == "agg" and z[1] == "closure"]
+    if not clo or clo[0][2] not in prog.fns:
+        return None
+    c2 = prog.ctx(clo[0][2])
+    rets = [strip_casts(v) for v in c2.ret_expr().values()]
+    is_zero_test = len(rets) == 1 and isinstance(rets[0], tuple) and rets[0][0] == "bin" and rets[0][1] == "Eq" and 0 in (const_value(rets[0][2]), const_value(rets[0][3])) and \
+        any(z[0] == "param" and z[1] == 2 for z in walk_deep(rets[0], c2.prov, limit=40))
+    if not is_zero_test:
+        return None
+    src = [z for z in walk_deep(e[2][0], prov, limit=40) if z[0] == "call" and (z[1] or "").endswith(("<impl [T]>::iter", "Vec::<T, A>::iter", "Deref::deref"))]
+    return (e[2][0], add)
 
 
 def strip_refs(e):
@@ -306,7 +359,8 @@ def run_one(ck, prog):
                 for f in ctx.edge_facts(e):
                     if f[0] == "cmp" and f[1] == "Ne":
                         ys = [strip_casts(f[2]), strip_casts(f[3])]
-                        if any(isinstance(y, tuple) and y[0] == "bin" and y[1] == "Sub" and const_value(y[3]) == 1 for y in ys):
+                        if any(isinstance(y, tuple) and y[0] == "bin" and y[1] == "Sub" and const_value(y[3]) == 1 for y in ys) or \
+                                any(_first_nul_position(y, ctx.prov, prog) is not None for y in ys):
                             r = ctx.cfg.reachable_from(e.dst)
                             errs = [b for b in r if any(s["k"] == "assign" and s["dst"]["l"] == 0 and s["rv"]["k"] == "agg" and s["rv"].get("variant") == "Err" for s in ctx.cfg.block(b)["stmts"])]
                             oks = [b for b in r if any(s["k"] == "assign" and s["dst"]["l"] == 0 and s["rv"]["k"] == "agg" and s["rv"].get("variant") == "Ok" for s in ctx.cfg.block(b)["stmts"])]
